@@ -34,8 +34,15 @@ func c11Base(i int, p c11Params) *DocCase {
 		r.Set("many", append([]string{}, p.many...))
 		return r
 	}
-	incl := []j.Resource{docRes(docU, i%2 == 0, "u1", 0), docRes(docU, i%2 == 0, "u2", 1), mkT(softT, "t9", 2)}
-	doc := &j.Document{PrePath: "https://h", RelData: map[string][]string{"t": append([]string{}, p.relDataT...), "u": {"back"}}}
+	// included: two types whose order by type name ("t" < "u") disagrees with the
+	// order of their ids ("z9" > "u1")
+	incl := []j.Resource{docRes(docU, i%2 == 0, "u1", 0), docRes(docU, i%2 == 0, "u2", 1), mkT(softT, "z9", 2)}
+	relDataT := append([]string{}, p.relDataT...)
+	if i%2 == 1 || i == 2 {
+		// some but not all selected relationships carry data
+		relDataT = []string{"many"}
+	}
+	doc := &j.Document{PrePath: "https://h", RelData: map[string][]string{"t": relDataT, "u": {"back"}}}
 	for _, k := range p.inclPerm {
 		doc.Included = append(doc.Included, incl[k])
 	}
